@@ -598,6 +598,9 @@ func c05Random(c *fw.Ctx, i int) {
 			}
 			used = append(used, id)
 			val := gen.Value(r, ln)
+			if r.Chance(1, 20) {
+				val = nil // a nil value is an empty value, not a request to delete
+			}
 			if len(passed) > 0 && r.Chance(1, 5) {
 				// hand the library a slice it was given before (same storage for two ids), or a window into one,
 				// or fresh bytes of exactly the length of an earlier value
@@ -671,6 +674,9 @@ func c05Grow(c *fw.Ctx, i int) {
 				ops = append(ops, c05Op{kind: r.Pick(2, 3)})
 			case 1:
 				ops = append(ops, c05Op{kind: 0, id: order[len(order)-1], val: gen.Value(r, r.Range(1, 8))})
+				if r.Chance(1, 4) {
+					ops[len(ops)-1].val = nil
+				}
 			case 2:
 				ops = append(ops, c05Op{kind: 1, id: id}) // deleting again fails and changes nothing
 			}
